@@ -100,7 +100,7 @@ func init() {
 		c.Rule = "random programs generated with --extra-imports (tree fragment plus scalar defaults; no date/time formats and no mixed enums: known finding K9); documents: a fully populated valid document, schema-directed valid documents, and single-fault documents (one required key removed, one bound exceeded by 1, one length off by 1, one pattern mismatch, one non-member of a string enum); plus required integer keys named with every punctuation character a tag may contain and with verb-like names (cpu%, %s, 100%, {{.}}): valid, each key missing, each bound exceeded; each decoded through the real UnmarshalJSON and the real UnmarshalYAML: same verdict and same re-marshalled value. Distinct = distinct (fault kind, verdict pair, document shape)."
 		c.Proofs([]string{"GJS.Props.C17"}, []string{
 			"GJS.Props.C17.runAfter_wire_independent", "GJS.Props.C17.runBefore_wire_independent", "GJS.Props.C17.prim_decode_agree",
-			"GJS.Props.C17.method_same_statements", "GJS.Props.C17.yaml_json_agree", "GJS.Props.C17.yaml_json_same_verdict", "GJS.Props.C17.agree_all", "GJS.Props.C17.KF_yaml_int_in_mixed_enum", "GJS.Props.C17.KF_yaml_truncates_fraction",
+			"GJS.Props.C17.method_same_statements", "GJS.Props.C17.yaml_json_agree", "GJS.Props.C17.wcB_sound", "GJS.Props.C17.certified_yaml_json_agree", "GJS.Props.C17.yaml_json_same_verdict", "GJS.Props.C17.agree_all", "GJS.Props.C17.KF_yaml_int_in_mixed_enum", "GJS.Props.C17.KF_yaml_truncates_fraction",
 		})
 		factsOf(c, "receiverWrites", "templateQualifiers")
 		o := treeOpts()
@@ -193,6 +193,18 @@ func init() {
 				c.Sample(M{"schema": clip(string(r.SchemaJSON), 300), "doc": r.DocJSON[5], "kind": metas[ri].kinds[5]})
 			}
 		}
+		// how much of what was compared is inside the theorem (documents the driver certifies wire-compatible)
+		wc, nd := 0, 0
+		for _, r := range res {
+			if r.Cert != nil {
+				var a, b int
+				fmt.Sscan(r.Cert["wc"], &a)
+				fmt.Sscan(r.Cert["docs"], &b)
+				wc += a
+				nd += b
+			}
+		}
+		c.Count("theorem-coverage", fmt.Sprintf("documents certified wire-compatible (yaml_json_agree applies): %d of %d", wc, nd))
 		breaks(c, res, nil, fails > 0)
 		c.FactsVerdict(fails > 0)
 		knownProgramFindings(c)
